@@ -78,6 +78,17 @@ Expected(n, adj) ==
                                     IN IF later = {} THEN -1 ELSE MinOf(later)],
       ngroups |-> ng]
 
+(* the same numbering obtained in one pass over the input order: the first point without a label opens   *)
+(* the next group and labels its whole class (equal to Expected(n, adj).ingroup - law IngroupPassIsExpected, *)
+(* checked on every small graph; used for the verdict on large recorded sets, where it is much cheaper)    *)
+RECURSIVE LabelPass(_, _, _, _, _)
+LabelPass(nb, n, i, g, lab) ==
+  IF i = n THEN lab
+  ELSE IF lab[i] # -1 THEN LabelPass(nb, n, i + 1, g, lab)
+  ELSE LET C == ClassOf(nb, i)
+       IN LabelPass(nb, n, i + 1, g + 1, [j \in Pts(n) |-> IF j \in C THEN g ELSE lab[j]])
+IngroupOf(n, adj) == LabelPass(Nbrs(n, adj), n, 0, 0, Const(n, -1))
+
 IsArray(n, a) == DOMAIN a = Pts(n)
 
 (* follow next[] from j: the set visited, the number of visits, whether -1 was reached *)
@@ -114,13 +125,13 @@ SamePartition(n, adj, ig) ==
 (* the verdict on four observed arrays *)
 Accepts(n, adj, ig, mult, first, next) ==
   /\ IsArray(n, ig)
-  /\ ig = Expected(n, adj).ingroup
+  /\ ig = IngroupOf(n, adj)
   /\ WellFormed(n, ig, mult, first, next)
 
 Why(n, adj, ig, mult, first, next) ==
   IF ~(IsArray(n, ig) /\ IsArray(n, mult) /\ IsArray(n, first) /\ IsArray(n, next)) THEN "shape"
   ELSE IF ~SamePartition(n, adj, ig) THEN "partition"
-  ELSE IF ig # Expected(n, adj).ingroup THEN "numbering"
+  ELSE IF ig # IngroupOf(n, adj) THEN "numbering"
   ELSE IF ~WellFormed(n, ig, mult, first, next) THEN "lists"
   ELSE ""
 
@@ -139,6 +150,7 @@ ComponentsAreLeast(n, adj) ==
   \A f \in [Pts(n) -> Pts(n)] :
      (\A i, j \in Pts(n) : Linked(adj, i, j) => f[i] = f[j])
        => \A C \in Components(n, adj) : \A i, j \in C : f[i] = f[j]
+IngroupPassIsExpected(n, adj) == IngroupOf(n, adj) = Expected(n, adj).ingroup
 ExpectedIsWellFormed(n, adj) ==
   LET e == Expected(n, adj) IN
   /\ WellFormed(n, e.ingroup, e.mult, e.first, e.next)
